@@ -344,7 +344,8 @@ CHECKS = {
         "lean_modules": ["P3R.Props.C02", "P3R.Props.C02Run", "P3R.Props.C02Denote", "P3R.Props.C02Complete", "P3R.Props.C02Shape", "P3R.Lemmas.BuilderSound",
                          "P3R.Props.C02LowerTotal", "P3R.Props.C02BuilderOk", "P3R.Witness.C02LowerTotal",
                          "P3R.Props.C02ShapeMono", "P3R.Props.C02ShapeLower", "P3R.Props.C02ShapeTotal",
-                         "P3R.Witness.C02ShapeTotal", "P3R.Props.C02ShapeOpt", "P3R.Props.C02ShapeOptLower", "P3R.Witness.C02ShapeOpt"],
+                         "P3R.Witness.C02ShapeTotal", "P3R.Props.C02ShapeOpt", "P3R.Props.C02ShapeOptLower", "P3R.Witness.C02ShapeOpt",
+                         "P3R.Props.C02Reach", "P3R.Witness.C02Reach"],
         "theorems": ["P3R.C02.dedup_rewrite_terminates", "P3R.C02.setW_get", "P3R.C02.setW_mono",
                      "P3R.C02.execAlu_sound",
                      # whole-run soundness: run = ok => every Const/ALU relation holds on the returned witness
@@ -408,7 +409,24 @@ CHECKS = {
                      "P3R.C02O.optKeepsShape_of_guards", "P3R.C02O.compile_shape_ok", "P3R.C02.run_total_on_satisfying_inputs",
                      "P3R.Witness.C02ShapeOpt.good_pubsFirst", "P3R.Witness.C02ShapeOpt.good_pubFull",
                      "P3R.Witness.C02ShapeOpt.good_fuses",
-                     "P3R.Witness.C02ShapeOpt.pubsFirst_needed"],
+                     "P3R.Witness.C02ShapeOpt.pubsFirst_needed",
+                     # builder side closed: every guard of run_total_on_satisfying_inputs (Ok, privOk, pubOk, primOk, pubFull)
+                     # holds in every state reachable through the builder API (ReachablePrim, 20 constructors; invariant RI);
+                     # caller side closed: a successful set_public_inputs / set_private_inputs on the fresh table yields the
+                     # shape allInputsSet (aliased rows included), the input rows of a compiled circuit are < witnessCount,
+                     # hence the usual session succeeds on every satisfying input vector
+                     "P3R.C02R.RI.frame", "P3R.C02R.RI.allocPublic", "P3R.C02R.RI.pushHint", "P3R.C02R.RI.decomposeToBits",
+                     "P3R.C02R.init_RI", "P3R.C02R.reachablePrim_RI", "P3R.C02R.pubOk_of_RI", "P3R.C02R.pubFull_of_RI",
+                     "P3R.C02R.primOk_of_RI", "P3R.C02R.reachablePrim_guards", "P3R.C02.reachable_guards",
+                     "P3R.C02.run_total_reachable",
+                     "P3R.C02R.setPublics_shape", "P3R.C02R.setPrivates_shape", "P3R.C02R.applyCalls_shape",
+                     "P3R.C02R.emitNode_closed", "P3R.C02R.lower_rows_lt", "P3R.C02R.compile_rows_lt",
+                     "P3R.C02R.foldlM_setW_ok", "P3R.C02R.supply_ok", "P3R.C02.session_total_reachable",
+                     "P3R.Witness.C02Reach.dec_guards", "P3R.Witness.C02Reach.dec_guards_eval",
+                     "P3R.Witness.C02Reach.mul_reachable", "P3R.Witness.C02Reach.mul_session",
+                     "P3R.Witness.C02Reach.ali_reachable", "P3R.Witness.C02Reach.ali_rows",
+                     "P3R.Witness.C02Reach.ali_ok", "P3R.Witness.C02Reach.ali_conflict",
+                     "P3R.Witness.C02Reach.raw_not_primOk", "P3R.Witness.C02Reach.raw_not_prim"],
         "run": lambda ctx: compile_run(ctx, "C02"),
         "trusted_base": ["executable prime-field instances PF p of the driver (validated against p3-field by the runs)"],
         "assumptions": ["zero divisors: no guarantee is checked when some divisor evaluates to 0 (as the property states)"],
